@@ -3,7 +3,7 @@ import random
 from .common import NONE
 from .drivers_ragged import rnd_val, rnd_slice, BINARY, UNARY
 
-RLV = ["from_array", "from_array", "concat2", "concat3", "pieces", "ufunc", "astype"]
+RLV = ["from_array", "from_array", "concat2", "concat3", "pieces", "ufunc", "astype", "derived", "derived2"]
 RL_DTS = ["b1", "i1", "u1", "i2", "i4", "i8", "u4", "f2", "f4", "f8"]
 
 
@@ -52,7 +52,7 @@ def gen_c15(r):
         idx = ["windows", st, [r.randint(s + 1, n) for s in st]]
     else:
         idx = ["all"]
-    return ["rl_getitem", dt, a, idx], {"npint": r.random() < 0.3, "listkind": r.choice(["list", "array"]), "via": r.choice(RLV)}, False
+    return ["rl_getitem", dt, a, idx], {"npint": r.random() < 0.3, "listkind": r.choice(["list", "array"]), "via": r.choice(RLV), "maskvia": r.choice(RLV[:7])}, False
 
 
 C16_DTS = ["b1", "i1", "u1", "i2", "i8", "f4", "f8"]
@@ -65,7 +65,7 @@ def gen_c16(r):
     if k == "ufunc":
         a = ["rl", dt, rnd_runs(r, dt, n)]
         if r.random() < 0.15:
-            return ["rl_ufunc", r.choice(UNARY), a, ["none"]], {"how": r.choice(["ufunc", "operator"]), "via": r.choice(RLV)}, True
+            return ["rl_ufunc", r.choice(UNARY), a, ["none"]], {"how": r.choice(["ufunc", "operator"]), "via": r.choice(RLV), "share": r.random() < 0.5}, True
         f = r.choice(BINARY)
         ok = r.choice(["rl", "rl", "rl", "py", "py", "np"])
         dt2 = r.choice(C16_DTS)
@@ -83,7 +83,7 @@ def gen_c16(r):
             b = ["py", pk, v]
         if r.random() < 0.4:
             a, b = b, a
-        return ["rl_ufunc", f, a, b], {"how": r.choice(["ufunc", "operator"]), "via": r.choice(RLV)}, True
+        return ["rl_ufunc", f, a, b], {"how": r.choice(["ufunc", "operator"]), "via": r.choice(RLV), "share": r.random() < 0.5}, True
     if k == "reduce":
         name = r.choice(["sum", "any", "all", "max", "mean"])
         return ["rl_reduce", name, dt, rnd_runs(r, dt, n, nan_ok=False, small=True)], {"how": r.choice(["np", "method"]), "via": r.choice(RLV)}, False
@@ -177,7 +177,8 @@ def gen_c13(r):
         return [(v >> 16) & 0xFFFF, v & 0xFFFF] if b == 32 else v
     a = [dig(i) for i in range(n)]
     k = r.choice(["bit_roundtrip", "bit_get", "bit_getlist", "bit_getlist", "bit_window", "bit_window", "bit_len"])
-    opts = {"indt": r.choice(["u1", "u2", "u4", "u8", "i1", "i2", "i4", "i8"]), "npidx": r.random() < 0.3, "listkind": r.choice(["list", "array"]), "again": r.random() < 0.5}
+    opts = {"indt": r.choice(["u1", "u2", "u4", "u8", "u8", "i1", "i2", "i4", "i8"]), "npidx": r.random() < 0.3, "listkind": r.choice(["list", "array"]), "again": r.random() < 0.5,
+            "repack": r.random() < 0.4, "pre_w": r.choice([0, 0, 1, 2, 3, per])}
     if b >= 8 and opts["indt"] in ("i1",) or (b == 16 and opts["indt"] in ("i2",)) or (b == 32 and opts["indt"] in ("i4",)):
         opts["indt"] = "u8"
     if k == "bit_get":
@@ -211,30 +212,31 @@ def gen_c18(r):
     n = r.randint(0, 7)
     t = tab(n, 0)
     k = r.choice(["dc_new", "dc_len", "dc_getitem", "dc_getitem", "dc_getitem", "dc_iter", "dc_concat", "dc_concat", "dc_eq", "dc_astype", "vl_concat", "dc_bad"])
+    inh = {"inherit": r.random() < 0.4}
     if k == "dc_getitem":
         from .drivers_ragged import rnd_slice
         sel = r.choice([["int", r.randint(-n - 1, n)], rnd_slice(r, n), ["list", [r.randint(-n, n - 1) for _ in range(r.randint(0, 5))] if n else []],
                         ["mask", [r.randint(0, 1) for _ in range(n)]]])
-        return [k, t, sel], {}, False
+        return [k, t, sel], dict(inh), False
     if k == "dc_concat":
         ts = [tab(r.randint(0, 5), 1000 * i) for i in range(r.randint(1, 4))]
-        return [k, ts], {}, False
+        return [k, ts], dict(inh), False
     if k == "dc_eq":
         t2 = tab(n if r.random() < 0.7 else r.randint(0, 7), 0 if r.random() < 0.6 else 7)
-        return [k, t, t2], {}, False
+        return [k, t, t2], dict(inh), False
     if k == "dc_astype":
         want = r.sample(names, r.randint(1, nf))
-        return [k, t, want], {}, False
+        return [k, t, want], dict(inh), False
     if k == "vl_concat":
         ms = []
         for i in range(r.randint(1, 4)):
             w, m = r.randint(1, 4), r.randint(1, 3)
             ms.append([[100 * i + 10 * a_ + j + 1 for j in range(w)] for a_ in range(m)])
-        return [k, ms], {}, False
+        return [k, ms], dict(inh), False
     if k == "dc_bad" and nf >= 2:
         t2 = tab(n + r.choice([1, 2]), 0)
-        return ["dc_new", [names, [t2[1][0]] + t[1][1:]]], {}, False
-    return [k if k != "dc_bad" else "dc_new", t], {}, False
+        return ["dc_new", [names, [t2[1][0]] + t[1][1:]]], dict(inh), False
+    return [k if k != "dc_bad" else "dc_new", t], dict(inh), False
 
 
 GEN["C13"] = gen_c13
